@@ -60,10 +60,16 @@ func (a BasicAuth) protectedPath(reqPath, res string) string {
 	if httpserver.Path(reqPath).Matches(res) {
 		return reqPath
 	}
-	if strings.HasSuffix(reqPath, "/") {
+	dir := reqPath
+	if dir == "" {
+		// an absolute-form request-target without a path
+		// ("GET http://example.com HTTP/1.1") is served as "/"
+		dir = "/"
+	}
+	if strings.HasSuffix(dir, "/") {
 		for _, indexPage := range a.IndexPages {
-			if httpserver.Path(reqPath + indexPage).Matches(res) {
-				return reqPath + indexPage
+			if httpserver.Path(dir + indexPage).Matches(res) {
+				return dir + indexPage
 			}
 		}
 	}
